@@ -182,6 +182,7 @@ package hotspot
 
 // Whole-set load, called by LoadRules with the update lock held: a NEW table is built and swapped in; nothing that
 // existed before — the old table, the lists published in it, the caller's raw lists — is written; the raw map is recorded.
+//@ spec func allValidLists(m) = (forall r Str :: has(m, r) ==> allocated(base(m[r]))) && (forall r Str :: forall k Int :: has(m, r) && 0 <= k && k < len(m[r]) ==> validRule(m[r][k]))
 //@ func onRuleUpdate(rawResRulesMap) err
 //@   props C13
 //@   requires[holds-the-update-lock]{C15} wlockcount(updateRuleMux) > 0
@@ -190,18 +191,21 @@ package hotspot
 //@   ensures[new-table-swapped-in] err == nil ==> tcMap != nil && fresh(tcMap)
 //@   modifies tcMap, currentRules
 //@   loop 1:
-//@     invariant[valid-map-is-new] validResRulesMap != nil && fresh(validResRulesMap)
+//@     invariant[valid-map-is-new] validResRulesMap != nil && fresh(validResRulesMap) && allValidLists(validResRulesMap)
 //@     invariant[nothing-else-written] frame()
 //@   loop 2:
-//@     invariant[valid-map-is-new] validResRulesMap != nil && fresh(validResRulesMap)
-//@     invariant[valid-list-is-new] cap(validResRules) == 0 || fresh(base(validResRules))
+//@     invariant[valid-map-is-new] validResRulesMap != nil && fresh(validResRulesMap) && allValidLists(validResRulesMap)
+//@     invariant[valid-list-is-new] (cap(validResRules) == 0 || fresh(base(validResRules))) && (forall k Int :: 0 <= k && k < len(validResRules) ==> validRule(validResRules[k]))
+//@     invariant[valid-list-is-not-in-the-map-yet] forall r Str :: has(validResRulesMap, r) ==> base(validResRulesMap[r]) != base(validResRules)
 //@     invariant[nothing-else-written] frame()
 //@   loop 3:
 //@     invariant[clone-is-new] tcMapClone != nil && fresh(tcMapClone) && (forall r Str :: has(tcMapClone, r) ==> fresh(base(tcMapClone[r])))
+//@     invariant[valid-lists] allValidLists(validResRulesMap)
 //@     invariant[nothing-else-written] frame()
 //@   loop 4:
 //@     invariant[new-table] m != nil && fresh(m)
 //@     invariant[clone-lists-are-private] forall r Str :: has(tcMapClone, r) ==> fresh(base(tcMapClone[r]))
+//@     invariant[valid-lists] allValidLists(validResRulesMap)
 //@     invariant[nothing-else-written] frame()
 //@ func LoadRules(rules) (changed, err)
 //@   props C13
@@ -229,12 +233,23 @@ package hotspot
 
 // The validator and the controller builder are not under contract here (user-registered generator functions):
 // assumed not to write anything that existed before, except that the builder edits the list it is GIVEN in place.
-//@ func IsValidRule(rule) err
-//@   assumed
-//@   panics never
+// the validator, field by field
+//@ spec func validRule(r) = r != nil && len(r.Resource) > 0 && r.Threshold >= 0 && r.MetricType >= 0 && r.ControlBehavior >= 0 && !(r.MetricType == QPS && r.DurationInSec <= 0) && !(r.ParamIndex > 0 && r.ParamKey != "") && (r.ControlBehavior == Reject ==> r.BurstCount >= 0) && (r.ControlBehavior == Throttling ==> r.MaxQueueingTimeMs >= 0)
+//@ func checkControlBehaviorField(rule) err
+//@   props C13
+//@   requires rule != nil
+//@   ensures[iff] err == nil <==> (rule.ControlBehavior == Reject ==> rule.BurstCount >= 0) && (rule.ControlBehavior == Throttling ==> rule.MaxQueueingTimeMs >= 0)
 //@   modifies nothing
+//@ func IsValidRule(rule) err
+//@   props C13
+//@   panics never
+//@   ensures[iff] err == nil <==> validRule(rule)
+//@   modifies nothing
+// the controller builder (user-registered generator functions): assumed; it is only ever handed validated rules, and
+// it edits the list it is GIVEN in place
 //@ func buildResourceTrafficShapingController(res, resRules, oldResTcs) r
 //@   assumed
+//@   requires[all-valid] forall k Int :: 0 <= k && k < len(resRules) ==> validRule(resRules[k])
 //@   panics may
 //@   ensures cap(r) == 0 || fresh(base(r))
 //@   modifies elems(oldResTcs)
@@ -253,5 +268,6 @@ package hotspot
 //@   modifies mapof(tcMap), mapof(currentRules)
 //@   loop 1:
 //@     invariant[valid-list-is-private] cap(validResRules) == 0 || fresh(base(validResRules))
+//@     invariant[only-valid-rules-kept] forall k Int :: 0 <= k && k < len(validResRules) ==> validRule(validResRules[k])
 //@     invariant[nothing-written] frame()
 //@ lockorder updateRuleMux tcMux {C15}
